@@ -169,7 +169,26 @@ static void drive_crystals(bool thorough, int part, int np) {
         }
       }
     }
+    // the public constructor: a Struct built field by field must behave like a C struct with the same fields (here with a volume of the caller's choosing)
+    { Crystal_Struct *c2 = ::Crystal_MakeCopy(c, nullptr); c2->volume = c->volume * 1.25;
+      xrlpp::Crystal::Struct y(std::string(names[ci]) + "_built", x.a, x.b, x.c, x.alpha, x.beta, x.gamma, x.volume * 1.25, x.atom);
+      int h[3] = {1, 1, 1}; wit_c(w, sizeof w, names[ci], h, 8.0, 0.9, 1.3, nullptr);
+      { xrl_error *e = nullptr; long l0 = W_live; double v = ::Crystal_dSpacing(c2, 1, 1, 1, &e); long lc = W_live - l0 - (e ? 2 : 0); pairD("dSpacing(built)", "h,", v, e, lc, w, [&] { return y.dSpacing(1, 1, 1); }, [&] { return xrlpp::Crystal::dSpacing(y, 1, 1, 1); }); }
+      { xrl_error *e = nullptr; long l0 = W_live; double v = ::Crystal_UnitCellVolume(c2, &e); long lc = W_live - l0 - (e ? 2 : 0); pairD("UnitCellVolume(built)", "", v, e, lc, w, [&] { return y.UnitCellVolume(); }, [&] { return xrlpp::Crystal::UnitCellVolume(y); }); }
+      { xrl_error *e = nullptr; long l0 = W_live; double v = ::Bragg_angle(c2, 8.0, 1, 1, 1, &e); long lc = W_live - l0 - (e ? 2 : 0); pairD("Bragg_angle(built)", "h,normal,", v, e, lc, w, [&] { return y.Bragg_angle(8.0, 1, 1, 1); }, [&] { return xrlpp::Crystal::Bragg_angle(y, 8.0, 1, 1, 1); }); }
+      { xrl_error *e = nullptr; long l0 = W_live; double v = ::Q_scattering_amplitude(c2, 8.0, 1, 1, 1, 1.3, &e); long lc = W_live - l0 - (e ? 2 : 0); pairD("Q_scattering_amplitude(built)", "h,normal,normal,", v, e, lc, w, [&] { return y.Q_scattering_amplitude(8.0, 1, 1, 1, 1.3); }, [&] { return xrlpp::Crystal::Q_scattering_amplitude(y, 8.0, 1, 1, 1, 1.3); }); }
+      { xrl_error *e = nullptr; long l0 = W_live; xrlComplex v = ::Crystal_F_H_StructureFactor(c2, 8.0, 1, 1, 1, 0.9, 1.3, &e); long lc = W_live - l0 - (e ? 2 : 0); pairC("F_H_StructureFactor(built)", "h,normal,normal,normal,", v, e, lc, w, [&] { return y.F_H_StructureFactor(8.0, 1, 1, 1, 0.9, 1.3); }, [&] { return xrlpp::Crystal::F_H_StructureFactor(y, 8.0, 1, 1, 1, 0.9, 1.3); }); }
+      ::Crystal_Free(c2); }
     ::Crystal_Free(c);
+  }
+  // Atomic_Factors with absent outputs: the C function skips (and does not range-check) a factor whose pointer is NULL
+  for (int Z : {0, 14, 79}) for (double E : {8.0, 1e5}) for (double q : {0.5, -1.0, 1e10}) for (int mask = 0; mask < 7; mask++) {
+    double a[3] = {0, 0, 0}, b[3] = {0, 0, 0}; xrl_error *e = nullptr; long l0 = W_live;
+    int rv = ::Atomic_Factors(Z, E, q, 1.0, mask & 1 ? nullptr : &a[0], mask & 2 ? nullptr : &a[1], mask & 4 ? nullptr : &a[2], &e); long lc = W_live - l0 - (e ? 2 : 0);
+    bool ok = e == nullptr; int code = e ? (int)e->code : -1; std::string msg = e ? e->message : ""; xrl_clear_error(&e);
+    int xr = 0; std::string what; l0 = W_live; int xc = guarded([&] { xr = xrlpp::Crystal::Atomic_Factors(Z, E, q, 1.0, mask & 1 ? nullptr : &b[0], mask & 2 ? nullptr : &b[1], mask & 4 ? nullptr : &b[2]); }, what);
+    int h0[3] = {Z, mask, 0}; wit_c(w, sizeof w, "", h0, E, 1.0, q, nullptr);
+    observe("Crystal::Atomic_Factors", std::string(icls(Z)) + "," + dcls(E) + "," + dcls(q) + ",absent" + std::to_string(mask) + ",", ok, code, msg, xc == X_NONE && xr == rv && biteq(a[0], b[0]) && biteq(a[1], b[1]) && biteq(a[2], b[2]), xc, what, lc, W_live - l0, w);
   }
   // Atomic_Factors: three outputs
   for (int Z = -1 + part; Z <= 121; Z += np) for (double E : CE) for (double q : {0.0, 0.5, -1.0}) for (double deb : DB) {
